@@ -119,6 +119,39 @@ theorem frozen_inplace_nan (n n' : Norm.Norm ℝ) (F : List (Ext ℝ)) (b : Bool
   · intro hi'
     simp [List.getElem?_map, hi', norm_nan_masked]
 
+/-! ### … and why the limits must be frozen for that -/
+
+/-- the min-max object as the constructor builds it without `data=` (lazy limits) -/
+noncomputable def lazyMinMax : Norm.Norm ℝ := ⟨.manual none none, .linear LinearStretch.default, none, none⟩
+
+theorem lazyMinMax_pixel (lo hi x : ℝ) :
+    normPixel lazyMinMax.stretch lo hi (.fin x) =
+      some (if hi - lo ≠ 0 then clip01 ((x - lo) / (hi - lo)) else clip01 (x - lo)) := by
+  rw [normPixel_fin, intervalFin_eq]
+  show some ((LinearStretch.default : LinearStretch ℝ).call _) = _
+  rw [linear_call_eq, linear_default_eq]
+  simp [linearS]
+
+/-- WITHOUT frozen limits `frozen_inplace_nan` fails: a lazy min-max object shows the pixel 1 of `[0, 1, 2]` at 1/2, and at 1
+after the pixel 2 was overwritten by NaN (the limits are recomputed from the argument) -/
+theorem lazy_inplace_nan_counterexample :
+    lazyMinMax.call [.fin 0, .fin 1, .fin 2] = .ok [some 0, some (1 / 2), some 1] ∧
+    lazyMinMax.call [.fin 0, .fin 1, .nan] = .ok [some 0, some 1, none] := by
+  have hA : lazyMinMax.interval.getLimits [.fin 0, .fin 1, .fin 2] = .ok ((0 : ℝ), 2) := by
+    norm_num [lazyMinMax, Interval.getLimits, manualLimits, finiteVals, minL, maxL, orValueError, bind, Except.bind, pure, Except.pure]
+  have hB : lazyMinMax.interval.getLimits [.fin 0, .fin 1, .nan] = .ok ((0 : ℝ), 1) := by
+    simp [lazyMinMax, Interval.getLimits, manualLimits, finiteVals, minL, maxL, orValueError, bind, Except.bind, pure, Except.pure]
+  constructor
+  · unfold Norm.call
+    rw [hA]
+    simp only [bind, Except.bind, pure, Except.pure, List.map_cons, List.map_nil, lazyMinMax_pixel]
+    norm_num [clip01]
+  · unfold Norm.call
+    rw [hB]
+    simp only [bind, Except.bind, pure, Except.pure, List.map_cons, List.map_nil, lazyMinMax_pixel, norm_nan_masked]
+    norm_num [clip01]
+
+
 /-! ## order independence of the limits -/
 
 theorem finiteVals_eq_filterMap (d : List (Ext ℝ)) :
